@@ -380,10 +380,12 @@ def _record(res, name, r, dt, meaning=None):
     return it
 
 
-def ask(cx, name, bad, meaning, judge, extra_for_replay=None, timeout_s=None):
+def ask(cx, name, bad, meaning, judge, extra_for_replay=None, timeout_s=None, witness_search=None):
     """register a query: bad must be UNSAT.  judge(line, real_outcome, (cat, wf, ck)) -> violation text or None.
+    witness_search(cfg, model line) -> (line, decode, raw driver output, violation text) or None: used when the model's own line does
+    not show the violation this property is about (then an unconfirmed model makes the run inconclusive, not 'not reproduced').
     Queries are solved together (in parallel) by run_queries()."""
-    cx.queue.append({"name": name, "bad": bad, "meaning": meaning, "judge": judge, "extra": extra_for_replay})
+    cx.queue.append({"name": name, "bad": bad, "meaning": meaning, "judge": judge, "extra": extra_for_replay, "search": witness_search})
     return True
 
 
@@ -414,10 +416,19 @@ def run_queries(cx, timeout_s=600):
         res.replayed += 1
         ce = concrete_eval(rel, ref, line)
         what = q["judge"](line, real, ce)
+        script_decode = 0
+        if not what and q.get("search") is not None:
+            found = q["search"](rel.cfg, line)
+            res.replayed += 1
+            if found is not None:
+                line, script_decode, raw_out, what = found
+            else:
+                res.inconclusive.append("%s[%s]: the query is satisfiable (model line %r) but no line showing the property's own violation was found" % (name, rel.cfg, line))
+                continue
         if what:
             rec = {"property": res.prop, "engine": "M", "query": name, "cfg": rel.cfg, "line": line.decode("latin1"), "line_hex": line.hex(),
                    "real_output": raw_out, "reference": {"wellformed": ce[1], "checksum_matches": ce[2]}, "what": what,
-                   "script": ["N", "L 0 " + line.hex()]}
+                   "script": ["N", "L %d " % script_decode + line.hex()]}
             path = kflow.write_replay(res.prop, rec)
             res.violations.append({"what": "%s[%s]: %s | line %r -> %s" % (name, rel.cfg, what, line, raw_out), "replay": path})
             print("VIOLATION property=%s replay=%s" % (res.prop, path), flush=True)
@@ -534,6 +545,57 @@ def q_postconditions(cx):
                "accepted sentence: payload non-empty, free of ',' and '*', fill < 6 (no-alloc: payload <= 384 bytes)",
                lambda line, real, ce: ("accepted sentence violates a layer-T postcondition (empty payload / fill >= 6 / ',' or '*' in the payload)" if real["kind"] in "CI" else None),
                extra_for_replay=z3.And(ref.fn == 1))
+
+
+def panic_search(cfg, line):
+    """a line on which the sentence layer's hand-over contract fails: look for an actual panic of the payload layer behind it
+    (single complete sentence, decoding on; the model's payload and short prefixes of it; the model's fill count and larger ones)"""
+    try:
+        body = line[line.index(b"!") + 1:line.rindex(b"*")] if b"!" in line else line[1:line.rindex(b"*")]
+        f = body.split(b",")
+        payload, fill = f[5], f[6]
+    except Exception:
+        return None
+    cands = []
+    fills = []
+    for x in (fill, b"6", b"7", b"8", b"9", b"5", b"0"):
+        if x not in fills:
+            fills.append(x)
+    for pl in (payload, payload[:1], payload[:2], b"0", b"00", b"w", b""):
+        for fl in fills:
+            b2 = b"AIVDM,1,1,,A," + pl + b"," + fl
+            cs = 0
+            for ch in b2:
+                cs ^= ch
+            cands.append(b"!" + b2 + b"*%02X" % cs)
+    seen, script = set(), []
+    for c_ in cands:
+        if c_ not in seen:
+            seen.add(c_)
+            script += ["N", (True, c_)]
+    outs, path = run_driver(cfg, script)
+    lines_ = [x for x in script if x != "N"]
+    for (dec, c_), o in zip(lines_, outs):
+        if o.startswith("P"):
+            return c_, 1, o, "panic: " + o[2:]
+    return None
+
+
+def q_handover_for_totality(cx):
+    """C01: the payload layer is shown panic-free for what the sentence layer hands over (fill 0..=5, ...).  If that contract
+    fails on this code, an actual panic behind it is searched for; only a panic is a violation of C01."""
+    rel, ref = cx.rel, cx.ref
+    ln = rel.line
+    bad = []
+    for p in rel.paths:
+        if p["cat"] != A_ACCEPT:
+            continue
+        f = p["sent"].fields
+        bad.append(z3.And(pc_of(p), z3.Not(z3.ULT(f[7], 6))))
+    return ask(cx, "fill-count-handed-to-the-payload-layer-is-0..5", z3.Or(*bad) if bad else z3.BoolVal(False),
+               "accepted sentence: fill < 6 (the precondition under which unarmor is shown panic-free)",
+               lambda line, real, ce: ("panic: " + real.get("msg", "") if real["kind"] == "P" else None),
+               extra_for_replay=z3.And(ref.fn == 1), witness_search=panic_search)
 
 
 def q_no_panic(cx):
